@@ -2,14 +2,17 @@ import CJ.Model.Detector
 import CJ.Drv.Util
 /-! Driver for the station → detector channel model (C10).
 
-`c10|<msg>;<msg>;…` — the messages are handled in order by one detector whose map initially holds one
-foreign key (`sentinel`, expiry 1); the clock is fixed at 0.  A message is
+`c10|<step>;<step>;…` — the steps are handled in order by one detector whose map initially holds one
+foreign key (`sentinel`, expiry 1); the clock starts at 0 and is set by a `<now>@` prefix of a step.
+A step is `S` (sweep: `drop_stale_sessions`), `F,<next-header>,<src>,<dst>,<dport>` (lookup by the
+packet path: `is_tracked_session(FlowNoSrcPort)`, addresses as `4.<hex>` / `6.<hex>`), or a message:
 * `R,<phantom hex>,<registrant hex>,<port>,<proto>,<op>,<timeout>` — `mkS2D` of that registration,
 * `C` — the station's clear message (`mkClear`),
 * `M,<op>,<proto>,<client>,<phantom>,<dport>,<sport>,<timeout>` — a raw message; `-` = field absent;
   a text field is `E` (empty), `X` (other text), `4.<hex>` / `6.<hex>` (literal, as classified by the
   detector's own parser).
-Answer per message: `<conversion>/<map size>/<sentinel present>/<expiry stored under the session's tag>`. -/
+Answer per step: `<conversion | sweep:<dropped> | flow:<tracked>>/<map size>/<sentinel present>/<expiry stored
+under the session's tag>/<index of the first step of the case with the same tag>`. -/
 namespace CJ.Drv.Detector
 open CJ.Detector CJ.Drv
 
@@ -60,24 +63,79 @@ def showConv : Except Err Session → String
 
 def sentinel : Key := .ext "sentinel"
 
-def answer (st : Map) (m : S2D) : Map × String :=
-  let st' := handle 0 st m
-  let conv := convert m
-  let val := match conv with
-    | .ok s => match st'.get? (.tag (tagOf s)) with
-      | some v => toString v
-      | none => "-"
-    | .error _ => "-"
-  (st', s!"{showConv conv}/{st'.length}/{showBool (st'.get? sentinel).isSome}/{val}")
+/-- one step of a case: a station message, a sweep of stale sessions, or a lookup by the packet path -/
+inductive Step
+  | msg (m : S2D)
+  | sweep
+  | flow (f : Flow)
+
+def parseAddr (s : String) : Option IpAddr :=
+  match parseCls s with
+  | some (.lit a) => some a
+  | _ => none
+
+def parseStepBody (s : String) : Option Step :=
+  match s.splitOn "," with
+  | ["S"] => some .sweep
+  | ["F", proto, src, dst, dport] => do
+    some (.flow { proto := ← proto.toNat?, src := ← parseAddr src, dst := ← parseAddr dst, dstPort := ← dport.toNat? })
+  | _ => (parseMsg s).map .msg
+
+/-- `<now>@<step>` sets the detector's clock before the step; without the prefix the clock stays -/
+def parseStep (s : String) : Option (Option Nat × Step) :=
+  match s.splitOn "@" with
+  | [body] => (parseStepBody body).map (fun b => (none, b))
+  | [t, body] => do
+    let now ← t.toNat?
+    let b ← parseStepBody body
+    some (some now, b)
+  | _ => none
+
+structure DrvState where
+  now : Nat := 0
+  map : Map := [(sentinel, 1)]
+  tags : List (Option Tag) := []   -- tag of every step so far (in order), `none` where a step has none
+  outs : List String := []         -- answers, newest first
+
+/-- index of the first step of the case that carries the same tag (the step's own index if it is the
+first): equal tags ⇔ equal indices, which the harness compares with the detector's tag *strings* -/
+def tagClass (earlier : List (Option Tag)) (t : Option Tag) : String :=
+  match t with
+  | none => "-"
+  | some tg =>
+    match earlier.findIdx? (· == some tg) with
+    | some i => toString i
+    | none => toString earlier.length
+
+def step (d : DrvState) (x : Option Nat × Step) : DrvState :=
+  let now := x.1.getD d.now
+  let sent (st : Map) := showBool (st.get? sentinel).isSome
+  match x.2 with
+  | .msg m =>
+    let st' := CJ.Detector.handle now d.map m
+    let conv := convert m
+    let (val, tg) := match conv with
+      | .ok s => (match st'.get? (.tag (tagOf s)) with
+          | some v => toString v
+          | none => "-", some (tagOf s))
+      | .error _ => ("-", none)
+    { now := now, map := st', tags := d.tags ++ [tg],
+      outs := s!"{showConv conv}/{st'.length}/{sent st'}/{val}/{tagClass d.tags tg}" :: d.outs }
+  | .sweep =>
+    let st' := dropStale now d.map
+    { now := now, map := st', tags := d.tags ++ [none],
+      outs := s!"sweep:{d.map.length - st'.length}/{st'.length}/{sent st'}/-/-" :: d.outs }
+  | .flow f =>
+    let tg := some (flowTag f)
+    { now := now, map := d.map, tags := d.tags ++ [tg],
+      outs := s!"flow:{showBool (isTracked d.map f)}/{d.map.length}/{sent d.map}/-/{tagClass d.tags tg}" :: d.outs }
 
 def handle (args : List String) : Option String :=
   match args with
   | [msgs] => do
-    let ms ← (fields msgs ";").mapM parseMsg
-    let (_, outs) := ms.foldl (fun (acc : Map × List String) m =>
-      let (st', o) := answer acc.1 m
-      (st', o :: acc.2)) ([(sentinel, 1)], [])
-    some (joinWith ";" outs.reverse)
+    let ss ← (fields msgs ";").mapM parseStep
+    let d := ss.foldl step {}
+    some (joinWith ";" d.outs.reverse)
   | _ => none
 
 end CJ.Drv.Detector
